@@ -967,3 +967,24 @@ def _is_materialisation(v, pn):
     if isinstance(v, (ast.List, ast.Set, ast.Tuple, ast.ListComp, ast.SetComp)):
         return True
     return False
+
+
+def topo_consumed_opaquely(ctx, f, depth=2, _seen=None):
+    """does f (or a private helper it calls on self) hand `self.topological_order()` to something else than a
+    loop (reduce, map, sorted ...)? then the iteration order is used, in a way the rules cannot read"""
+    _seen = _seen if _seen is not None else set()
+    if f is None or f.qualname in _seen:
+        return False
+    _seen.add(f.qualname)
+    for n in ast.walk(f.node):
+        if isinstance(n, ast.Call) and dotted(n.func) == 'self.topological_order':
+            par = getattr(n, '_parent', None)
+            if isinstance(par, ast.Call):
+                return True
+    if depth > 0 and f.cls is not None:
+        for n in walk_local(f.node):
+            if isinstance(n, ast.Call) and isinstance(n.func, ast.Attribute) and isinstance(n.func.value, ast.Name) \
+                    and n.func.value.id == 'self' and n.func.attr.startswith('_'):
+                if topo_consumed_opaquely(ctx, ctx.prog.supplier(f.cls, n.func.attr), depth - 1, _seen):
+                    return True
+    return False
